@@ -61,7 +61,9 @@ class Point(tuple[int | None, int | None]):
 
     def __neg__(self) -> Point:
         """Unary negation"""
-        return self.__class__(self[0], self._curve.p() - self[1], self._curve)  # type: ignore[operator]
+        if self[1] is None:
+            return self  # the point at infinity is its own inverse
+        return Point(self[0], self._curve.p() - self[1], self._curve)
 
     def curve(self) -> Curve:
         """:return: the :class:`Curve <pycoin.ecdsa.Curve>` this point is on"""
